@@ -1,5 +1,5 @@
 """C05 — Calendar business-day arithmetic agrees with day-by-day counting."""
-import datetime, signal, time
+import datetime, signal, time, os
 from implutil import call
 
 ID = 'C05'
@@ -21,7 +21,7 @@ RULE = ('cases: (a) one Calendar(key=None, holidays, weekend, t0, t1, adj) on a 
         'add(t,2) == add(add(t,1),1). Indexed-path (|n|>1) results that leave [t0,t1] (KeyError) are outside the property (model reproduces them, oracle ignores them); a returned date must always be the n-th business day and the single-step path (|n|<=1, no table) must return it even beyond t1/t0. '
         'Query dates are spelt as midnight datetime, datetime with a time of day (down to 1 us), pandas.Timestamp, datetime.date or numpy.datetime64[D/s/us/ns] '
         '(day-level semantics: same answers, results must be midnight datetimes; an exception, a wrong day or a non-midnight / non-datetime result is a violation; numpy.datetime64 is not used '
-        'for is_bday / is_holiday nor with convention m, where the pinned code raises AttributeError). add(t, 0) is not executed when the code\'s own adjust(t) is a holiday (unbounded loop; model: OutOfFuel). non-trivial = calendar with holidays or '
+        'for is_bday / is_holiday nor with convention m, where the pinned code raises AttributeError). Further spellings (wave 6): the numbers dt() accepts -- unix timestamps (int / float seconds, UTC), yyyymmdd ints, proleptic ordinals, excel serials -- for adjust / add / bdays / drange / clock / dt_bump (same restriction as numpy: not for is_bday / is_holiday / convention m), pandas.Timestamp and numpy.datetime64[ns] with non-zero NANOSECONDS, and about a third of the cases run under a non-UTC process time zone (TZ + time.tzset(), restored afterwards; unix stamps early in the day west of Greenwich / late in the day east of it). drange with a business-day bump string as one endpoint (drange("-5b", t1, "1b"), drange(t0, "10b", "1b"), also "+3b" / "5B"): the oracle resolves it as add(other endpoint, n) by day-by-day counting and lists the business days between; the model composes dt_bump_b with drange_1b. add(t, 0) is not executed when the code\'s own adjust(t) is a holiday (unbounded loop; model: OutOfFuel). non-trivial = calendar with holidays or '
         'a weekend / registry sequence with an overwrite; distinct by full case')
 EXPLANATION = ('theorems C05_* hold for EVERY holiday predicate, weekend predicate, month function and range: is_bday characterisation; adjust f/p = least/greatest business day '
                'with termination bound; m = f unless the month changes; dt2int = day-by-day count, int2dt its inverse, table successor = next business day; add (both paths) '
@@ -112,6 +112,7 @@ def impl_setup():
     global Calendar, calendar, calendars
     from pyg_base._drange import Calendar, calendar, calendars
 
+NUMERIC = ('unix', 'unixf', 'ymdint', 'ord', 'xl')
 class NotADay(Exception):
     pass
 def _ord(x):
@@ -129,6 +130,7 @@ class Runner:
         # 'date' datetime.date | 'np' numpy datetime64 (unit D / us / ns).  Day-level semantics: the answer must not depend on it
         self.dform = f.get('dform') or ('ts' if f.get('ts') else 'tod' if f.get('tod') else 'dt')
         self.npunit = f.get('npunit', 'us')
+        self.ns = f.get('ns', 0)         # extra nanoseconds on pandas.Timestamp / numpy.datetime64[ns] spellings (tick stamps)
         if cal is None:
             wk = list(case['wk']); wf = f.get('wkform', 'list')
             wk_py = None if wf == 'none' else wk[0] if wf == 'int' else tuple(wk) if wf == 'tuple' else wk
@@ -150,14 +152,30 @@ class Runner:
         t = D(d) + self.tod
         if self.dform == 'ts':
             import pandas as pd
-            return pd.Timestamp(t)
-        if self.dform == 'np' and a is not None and eff_adj(a if a != 'dflt' else None, self.case['adj']) != 'm':
+            return pd.Timestamp(t) + pd.Timedelta(nanoseconds=self.ns)
+        restricted_ok = a is not None and eff_adj(a if a != 'dflt' else None, self.case['adj']) != 'm'
+        if self.dform == 'np' and restricted_ok:
             import numpy as np
+            if self.npunit == 'ns' and self.ns:
+                return np.datetime64(t, 'ns') + np.timedelta64(self.ns, 'ns')
             return np.datetime64(t, self.npunit)
+        if self.dform in NUMERIC and restricted_ok:
+            # the numeric spellings dt() accepts (same restriction as numpy: ints have no .weekday() / .month)
+            secs = self.tod.days * 86400 + self.tod.seconds
+            if self.dform == 'ord': return d
+            if self.dform == 'xl': return d - 693594
+            if self.dform == 'ymdint': return int(D(d).strftime('%Y%m%d'))
+            stamp = (d - 719163) * 86400 + secs          # unix timestamp (UTC) of that day [+ time of day]
+            if stamp > 30001231 + 86400:                 # below that dt() reads the number as yyyymmdd / ordinal / day offset
+                return stamp if self.dform == 'unix' else stamp + self.tod.microseconds / 1e6
         return t
     def what(self):
-        return '' if self.dform == 'dt' else ' (query dates spelt as %s%s)' % ({'tod': 'datetime with time of day', 'ts': 'pandas.Timestamp', 'date': 'datetime.date', 'np': 'numpy.datetime64[%s]' % self.npunit}[self.dform],
-                                                                          ' +%s' % self.tod if self.tod and self.dform != 'date' else '')
+        if self.dform == 'dt' and not (self.case.get('forms') or {}).get('tz'): return ''
+        names = {'dt': 'midnight datetime', 'tod': 'datetime with time of day', 'ts': 'pandas.Timestamp', 'date': 'datetime.date', 'np': 'numpy.datetime64[%s]' % self.npunit,
+                 'unix': 'unix timestamp (int seconds, UTC)', 'unixf': 'unix timestamp (float seconds, UTC)', 'ymdint': 'yyyymmdd int', 'ord': 'proleptic ordinal int', 'xl': 'excel serial int'}
+        tz = (self.case.get('forms') or {}).get('tz')
+        return ' (query dates spelt as %s%s%s%s)' % (names[self.dform], ' +%s' % self.tod if self.tod and self.dform not in ('date', 'ord', 'xl', 'ymdint') else '',
+                                                  ' +%dns' % self.ns if self.ns and self.dform in ('ts', 'np') else '', '; process time zone TZ=%s' % tz if tz else '')
     def bad(self, msg):
         if self.viol is None:
             c = self.case
@@ -249,6 +267,26 @@ class Runner:
                     D(x).date(), D(y).date(), ('%d days %s' % (len(obs), [str(D(t).date()) for t in obs[:4]])) if st == 'ok' else st,
                     D(sx).date(), D(sy).date(), len(e), [str(D(t).date()) for t in e[:3]], [str(D(t).date()) for t in e[-2:]]))
         return obs
+    def q_drb(self, mode, x, n):
+        """drange with one endpoint given as a business-day bump string relative to the other: drange('-5b', x, '1b') starts at add(x, -5),
+        drange(x, '10b', '1b') ends at add(x, 10) -- the calendar's own business days, default convention"""
+        text = ('%+db' if x % 2 == 0 and n > 0 else '%db') % n
+        if x % 3 == 0: text = text.upper()
+        args = (text, self.DT(x)) if mode == 's' else (self.DT(x), text)
+        st, r = guarded(self.cal.drange, args[0], args[1], '1b')
+        obs = [_ord(t) for t in r] if st == 'ok' else ['ERR', st]
+        sx = self.o.adjust(x, self.case['adj'])
+        if sx is not None:
+            e = self.o.nth(sx, n)
+            if self.o.inside(e):
+                lo, hi = (e, sx) if mode == 's' else (sx, e)
+                exp = [d for d in range(lo, hi + 1) if self.o.isb(d)]
+                if st != 'ok' or obs != exp:
+                    self.bad("drange(%s, %s, '1b') = %s; the bump endpoint is add(%s, %d) = %s (counting business days one at a time from the adjusted date %s) and the business days between are %d days %s..%s" % (
+                        repr(text) if mode == 's' else D(x).date(), D(x).date() if mode == 's' else repr(text),
+                        ('%d days %s..%s' % (len(obs), [str(D(t).date()) for t in obs[:2]], [str(D(t).date()) for t in obs[-1:]])) if st == 'ok' else st,
+                        D(x).date(), n, D(e).date(), D(sx).date(), len(exp), [str(D(t).date()) for t in exp[:2]], [str(D(t).date()) for t in exp[-1:]]))
+        return obs
     def q_clk(self, d):
         st, r = call(self.cal.clock, self.DT(d, 'dflt'))
         s = self.o.adjust(d, self.case['adj'])
@@ -288,6 +326,7 @@ class Runner:
     def run(self, q):
         k = q[0]
         if k == 'clk': return self.q_clk(q[1])
+        if k == 'drb': return self.q_drb(q[1], q[2], q[3])
         if k == 'bump': return self.q_bump(q[1], q[2], q[3])
         if k == 'isb': return self.q_isb(q[1])
         if k == 'ish': return self.q_ish(q[1])
@@ -361,6 +400,20 @@ def impl_registry(case):
     return {'status': 'ok', 'obs': obs, 'viol': viol}
 
 def impl(case):
+    """some cases run under a non-UTC process time zone (TZ + time.tzset()): day arithmetic must not depend on where the machine sits"""
+    tz = (case.get('forms') or {}).get('tz')
+    if not tz:
+        return impl_tz(case)
+    old = os.environ.get('TZ')
+    os.environ['TZ'] = tz; time.tzset()
+    try:
+        return impl_tz(case)
+    finally:
+        if old is None: os.environ.pop('TZ', None)
+        else: os.environ['TZ'] = old
+        time.tzset()
+
+def impl_tz(case):
     if case['kind'] == 'reg':
         return impl_registry(case)
     r = Runner(case)
@@ -388,6 +441,7 @@ def coq_q(q):
     if k == 'dr': return 'QDrange (%d) (%d)' % (q[1], q[2])
     if k == 'sw': return 'QSweep %s (%d)' % (coq_a(q[1]), q[2])
     if k == 'clk': return 'QClock (%d)' % q[1]
+    if k == 'drb': return 'QDrangeB %s (%d) [((%d), 0)]' % ('true' if q[1] == 's' else 'false', q[2], q[3])
     if k == 'bump': return 'QBump %s (%d) [%s]' % (coq_a(q[1]), q[2], '; '.join('((%d), (%d))' % (n, z) for n, z in q[3]))
     raise ValueError(k)
 def opt(x, f):
@@ -470,10 +524,18 @@ def gen_calendar(rng, dens, wkname, adj, tier, span=None):
     # input forms (Python side only; the model sees the canonical calendar): time of day / sub-second part on query dates,
     # pandas Timestamps, weekend as None / int / tuple, holidays unsorted with duplicates or None, spelled constructor adj
     forms = {}
-    forms['dform'] = rng.choice(['dt', 'dt', 'tod', 'tod', 'ts', 'date', 'date', 'np', 'np', 'np'])
-    if forms['dform'] in ('tod', 'ts', 'np'):
-        forms['tod'] = rng.choice([0, 1, 999999, 43200000000, 86399999999, rng.randrange(1, 86400000000)] if forms['dform'] != 'tod' else [1, 999999, 43200000000, 86399999999, rng.randrange(1, 86400000000)])
-    if forms['dform'] == 'np': forms['npunit'] = rng.choice(['D', 'us', 'ns', 's'])
+    forms['dform'] = rng.choice(['dt', 'tod', 'tod', 'ts', 'ts', 'date', 'np', 'np', 'unix', 'unix', 'unixf', 'ymdint', 'ord', 'xl'])
+    if forms['dform'] in ('tod', 'ts', 'np', 'unix', 'unixf'):
+        forms['tod'] = rng.choice([0, 1, 999999, 10800000000, 43200000000, 75600000000, 86399999999, rng.randrange(1, 86400000000)] if forms['dform'] != 'tod' else [1, 999999, 43200000000, 86399999999, rng.randrange(1, 86400000000)])
+    if forms['dform'] == 'np': forms['npunit'] = rng.choice(['D', 'us', 'ns', 'ns', 's'])
+    if forms['dform'] in ('ts', 'np') and rng.random() < 0.7: forms['ns'] = rng.choice([1, 999, rng.randrange(1, 1000)])     # nanosecond-resolution tick stamps
+    if forms['dform'] in ('unix', 'unixf') or rng.random() < 0.25:       # process time zone west / east of Greenwich
+        forms['tz'] = rng.choice(['America/New_York', 'Asia/Tokyo', 'EST5EDT', 'XXX-14', 'YYY11', 'Europe/London'])
+        if forms['dform'] in ('unix', 'unixf') and rng.random() < 0.75:
+            # a stamp early in the (UTC) day read west of Greenwich, or late in the day read east of it, lands on the neighbouring local day
+            west = forms['tz'] in ('America/New_York', 'EST5EDT', 'YYY11')
+            forms['tz'] = forms['tz'] if forms['tz'] != 'Europe/London' else 'America/New_York'; west = west or forms['tz'] == 'America/New_York'
+            forms['tod'] = rng.choice([0, 0, 1000000, 10800000000] if west else [75600000000, 86399000000, 82800000000])
     wk = WEEKENDS[wkname]
     forms['wkform'] = rng.choice(['list', 'tuple'] + (['none'] if wk == [5, 6] else []) + (['int'] if len(wk) == 1 else []))
     if hol and rng.random() < 0.5:
@@ -504,6 +566,10 @@ def gen_calendar(rng, dens, wkname, adj, tier, span=None):
         tok = lambda: rng.choice([(0, 1), (0, -1), (0, 0), (rng.randrange(NLO, NHI + 1), 0), (rng.choice([1, -1, 2, -2, 3, -5]), 0)])
         toks = [tok()] if r < 0.6 else [tok(), tok()] if r < 0.9 else [tok(), tok(), tok()]
         q.append(['bump', spell(), day(), [list(t) for t in toks]])
+    for _ in range(8):            # drange with a business-day bump string as the start (relative to an explicit end) or as the end (relative to an explicit start)
+        n = rng.choice([1, 2, 3, 5, 8, 10, rng.randrange(1, 21)])
+        if rng.random() < 0.6: q.append(['drb', 's', day(), -n if rng.random() < 0.9 else n])
+        else: q.append(['drb', 'e', day(), n if rng.random() < 0.9 else -n])
     for _ in range(3):
         x = day(); y = rng.choice([x + rng.randrange(0, 45), x - rng.randrange(0, 10), day() if span <= 400 or tier != 'quick' else x + rng.randrange(0, 200)])
         q.append(['dr', x, y])
@@ -592,9 +658,10 @@ def gen_registry_tables(rng):
         if rng.random() < 0.3: ops.append(['call', k, None, None, None, None])
     for k in range(nkeys):      # after the last registration
         burst(k, cur[k][0])
-    dform = rng.choice(['dt', 'tod', 'ts', 'date', 'np'])
+    dform = rng.choice(['dt', 'tod', 'ts', 'date', 'np', 'unix', 'ord'])
     return {'kind': 'reg', 'ops': ops, 'keyform': rng.choice(list(KEYFORMS)),
-            'forms': {'dform': dform, 'tod': 0 if dform in ('dt', 'date') else rng.choice([1, 43200000000, 86399999999]), 'npunit': rng.choice(['D', 'us', 'ns'])}}
+            'forms': {'dform': dform, 'tod': 0 if dform in ('dt', 'date') else rng.choice([1, 43200000000, 86399999999]), 'npunit': rng.choice(['D', 'us', 'ns']), 'ns': rng.choice([0, 1, 999]),
+                      'tz': rng.choice([None, None, 'America/New_York', 'Asia/Tokyo'])}}
 
 def gen_cases(rng, tier):
     cases = []
